@@ -43,17 +43,19 @@ class Range(PaneBase, t.Generic[Num],
     step: t.Optional[Num] = field(default=None, kw_only=True)
 
     def __post_init__(self):
-        s = sum((self.step is None, self.n is None))
-        if s == 0:
-            raise TypeError("Either 'n' or 'step' may be specified, but not both")
-        if s == 2:
+        if self.step is None and self.n is None:
             raise TypeError("Either 'n' or 'step' must be specified")
         span = self.end - self.start
         if self.step is not None:
             if math.isclose(self.step, 0.):
                 raise ValueError("'step' should be nonzero")
             n = 1 + math.ceil(span / self.step - 1e-6) if span > 0 else 0
-            object.__setattr__(self, 'n', n)
+            if self.n is None:
+                object.__setattr__(self, 'n', n)
+            elif self.n != n and not (self.n > 1 and math.isclose(self.step, span / (self.n - 1))):
+                # (both are given when a Range is read back from its own output, copied or replaced:
+                #  that is fine as long as they describe the same range)
+                raise TypeError("Either 'n' or 'step' may be specified, but not both")
         else:
             assert self.n is not None
             if not isinstance(self.start, float) and span % (self.n - 1):
